@@ -4,7 +4,7 @@ import hashlib
 import os
 import time
 import z3
-from .sym import fresh, Obj, Node, Int, IntV, concrete_int, EvK
+from .sym import fresh, Obj, Node, Int, IntV, concrete_int, EvK, inb
 from .values import *   # noqa
 from .interp import Interp, Ctx, PathEnd, next_decisions, Obligation, strip_doc
 
@@ -417,6 +417,9 @@ def _row_bag(v):
 
 
 def b_iter(interp, argv, kwv, fr):
+    if argv[0].kind == 'seq':
+        from .seqs import VSeqIter
+        return VSeqIter(argv[0])
     if argv[0].kind == 'row':
         return _row_bag(argv[0])            # iter(self._adj[n]): the keys of the row, each once
     return argv[0]
@@ -605,11 +608,30 @@ def _nx_add_nodes_from(self, interp, g, argv, kwv):
     """trusted model of networkx add_nodes_from(<graph>) (frame analysis of pyvc/frames.py: `new-node rows only`): every node of
     the argument becomes a node with an empty adjacency row unless it already is one; attributes of new nodes are empty; nothing
     else changes, so the typestate of g is kept"""
+    ctx = interp.ctx
+    x = z3.Const('x?an', Node)
+    if len(argv) == 1 and not kwv and (argv[0].kind == 'seq' or (argv[0].kind == 'list' and not argv[0].esc)):
+        # add_nodes_from(<sequence of nodes>): the listed nodes become nodes with empty rows unless they already are
+        from .seqs import _as_seq
+        sq = _as_seq(interp, argv[0])
+        k = z3.Int('k?an')
+        if sq.meta.get('elem_kind') not in ('node', 'none', None):
+            raise Undecided('add_nodes_from with a sequence of %s' % sq.meta.get('elem_kind'))
+        listed = lambda a: z3.Exists([k], z3.And(inb(k, sq.n), sq.elem(k).z == a))
+        old = g.snapshot()
+        tag = '@addnodes%d' % len(ctx.hyps)
+        comps = ['NodeIn', 'NAttr'] + ['Row_' + w for w in g.ws]
+        g.havoc(tag, only=comps)
+        ctx.assume(z3.ForAll([x], g['NodeIn'][x] == z3.Or(old['NodeIn'][x], listed(x)), patterns=[g['NodeIn'][x]]), 'call')
+        ctx.assume(z3.ForAll([k], z3.Implies(inb(k, sq.n), g['NodeIn'][sq.elem(k).z]), patterns=[sq.elem(k).z]), 'call')
+        for w in g.ws:
+            ctx.assume(z3.ForAll([x], g['Row_' + w][x] == g['NodeIn'][x], patterns=[g['Row_' + w][x]]), 'call')
+        ctx.assume(z3.ForAll([x], g['NAttr'][x] == z3.If(old['NodeIn'][x], old['NAttr'][x], self.empty_attr()), patterns=[g['NAttr'][x]]), 'call')
+        ctx.notes.append('trusted nx model: add_nodes_from(sequence of nodes)')
+        return VNone
     if len(argv) != 1 or argv[0].kind != 'graph' or kwv:
         raise Undecided('add_nodes_from with an argument other than a graph')
     src = argv[0].g
-    ctx = interp.ctx
-    x = z3.Const('x?an', Node)
     old = g.snapshot()
     tag = '@addnodes%d' % len(ctx.hyps)
     comps = ['NodeIn', 'NAttr'] + ['Row_' + w for w in g.ws]
